@@ -30,7 +30,7 @@ PROPS['C07'] = dict(
          'string needing escapes; distinct = distinct model hash',
     jobs=c07_jobs,
     min_evaluations=dict(quick=50000, thorough=1000000),
-    technique='differential runtime monitoring: library serializer against library deserializer on generated documents under ASan+UBSan, judged on values extracted through the public API',
+    technique='differential runtime monitoring: library serializer against library deserializer on generated documents under ASan+UBSan (and valgrind memcheck on the uninstrumented build), judged on values extracted through the public API',
     level_text='Exploration: every generated document is pushed through the three round trips of the statement and the extracted trees are compared (floats per C12, MessagePack bytes for identity); held on the documents observed, nothing more.',
     level_note='Trusts the extraction through is<T>/as<T>/iteration (itself checked against the model by C04) and the strict reference JSON parser used only to read back the float literals.',
     assumptions=COMMON_ASSUME + ['extraction through the public read API is faithful (cross-checked by C04)',
@@ -44,6 +44,7 @@ def c01_jobs(tier):
         Job('default', 'c01', 'gen', q(tier, 400000, 40000000), timeout=q(tier, 900, 7200)),
         Job('debug-small', 'c01', 'gen', q(tier, 100000, 10000000), timeout=q(tier, 900, 7200), defines={'ARDUINOJSON_SLOT_ID_SIZE': 2, 'ARDUINOJSON_STRING_LENGTH_SIZE': 1, 'ARDUINOJSON_DEBUG': 1, 'ARDUINOJSON_POOL_CAPACITY': 8}),
         Job('float', 'c01', 'gen', q(tier, 100000, 10000000), timeout=q(tier, 900, 7200), defines={'ARDUINOJSON_USE_DOUBLE': 0, 'ARDUINOJSON_SLOT_ID_SIZE': 4, 'ARDUINOJSON_STRING_LENGTH_SIZE': 4}),
+        Job('memcheck', 'c01', 'gen', q(tier, 16000, 1000000), flavour='plain', wrapper='memcheck', timeout=q(tier, 900, 7200)),
     ]
 
 
@@ -107,6 +108,7 @@ def c04_jobs(tier):
         Job('hist-default', 'c04', 'hist', q(tier, 30000, 600000), timeout=q(tier, 900, 10000)),
         Job('hist-tiny-pools', 'c04', 'hist', q(tier, 15000, 300000), defines=TINY[0], timeout=q(tier, 900, 10000)),
         Job('hist-1byte-ids', 'c04', 'hist', q(tier, 15000, 300000), defines=TINY[1], timeout=q(tier, 900, 10000)),
+        Job('hist-memcheck', 'c04', 'hist', q(tier, 1200, 40000), defines=TINY[0], flavour='plain', wrapper='memcheck', timeout=q(tier, 900, 10000), single_timeout=600),
         Job('small-tiny', 'c04', 'small%d' % q(tier, 4, 5), 0, defines=TINY[0], timeout=q(tier, 900, 20000)),
         Job('small-default', 'c04', 'small%d' % q(tier, 4, 5), 0, timeout=q(tier, 900, 20000)),
         Job('alias-probe', 'c04', 'alias', q(tier, 160, 3000), max_crashes=1000, timeout=q(tier, 900, 7200)),
@@ -129,7 +131,7 @@ PROPS['C04'] = dict(
     jobs=c04_jobs,
     exhaustive=lambda tier: False,
     min_evaluations=dict(quick=50000, thorough=1000000),
-    technique='model-based runtime monitoring: generated API histories executed on the real library under ASan+UBSan, compared after every step with an executable ordered-tree model; structural invariants through a read-only inspector hook; small-scope enumeration used as workload',
+    technique='model-based runtime monitoring: generated API histories executed on the real library under ASan+UBSan (a slice also under valgrind memcheck), compared after every step with an executable ordered-tree model; structural invariants through a read-only inspector hook; small-scope enumeration used as workload',
     level_text='Exploration: long random histories plus bounded-exhaustive short histories on tiny pools, each step judged by the model and by structural invariants; the small-scope part is complete for its 16-operation alphabet and length bound.',
     level_note='The sequential model (DESIGN.md Appendix A) is itself a reading of the API; it agreed with the library on every non-aliasing history observed. Aliasing assignments are known findings.',
     assumptions=COMMON_ASSUME + ['references held across clear/shrinkToFit/deserialize/swap/move of their document are dropped (don\'t-care 8)',
@@ -149,6 +151,8 @@ def c05_jobs(tier):
         Job('hist-1byte-ids', 'c05', 'hist', q(tier, 3000, 60000), defines=TINY[1], leaks=True, timeout=q(tier, 900, 10000)),
         Job('deser-default', 'c05', 'deser', q(tier, 20000, 400000), leaks=True, timeout=q(tier, 900, 10000)),
         Job('deser-tiny-pools', 'c05', 'deser', q(tier, 15000, 300000), defines=TINY[0], leaks=True, timeout=q(tier, 900, 10000)),
+        Job('memcheck-hist', 'c05', 'hist', q(tier, 160, 4000), defines=TINY[0], flavour='plain', wrapper='memcheck', timeout=q(tier, 900, 10000), single_timeout=600),
+        Job('memcheck-deser', 'c05', 'deser', q(tier, 4000, 150000), flavour='plain', wrapper='memcheck', timeout=q(tier, 900, 10000), single_timeout=600),
     ]
 
 
@@ -162,7 +166,7 @@ PROPS['C05'] = dict(
          'non-trivial = faulted run in which the injected failure was actually reached (distinct by scenario and schedule)',
     jobs=c05_jobs,
     min_evaluations=dict(quick=20000, thorough=500000),
-    technique='fault injection at the allocator boundary with exhaustive failure positions per scenario; model-based monitor (pre/post extraction through the public API) plus inspector invariants, under ASan+UBSan+LSan',
+    technique='fault injection at the allocator boundary with exhaustive failure positions per scenario; model-based monitor (pre/post extraction through the public API) plus inspector invariants, under ASan+UBSan+LSan (a slice also under valgrind memcheck)',
     level_text='Fault enumeration: failure positions are exhaustive per scenario (every failable allocator call), scenarios are sampled from the history and input generators.',
     level_note='Shrinking reallocations are never failed (the library, like the property, assumes they cannot fail). After a failure the model is resynchronised with the document (its content may legitimately be partial); only well-formedness and the untouched parts are judged until clear().',
     assumptions=COMMON_ASSUME + ['orphan string nodes (key saved, member slots not allocated) are tolerated until clear(): reference counts may exceed the users after a failure',
@@ -234,6 +238,8 @@ def c09_jobs(tier):
         Job('decode', 'c09', 'decode', q(tier, 400000, 20000000), timeout=q(tier, 900, 7200)),
         Job('prefix', 'c09', 'prefix', q(tier, 30000, 1500000), timeout=q(tier, 900, 7200)),
         Job('corrupt', 'c09', 'corrupt', q(tier, 50000, 3000000), timeout=q(tier, 900, 7200)),
+        Job('decode-memcheck', 'c09', 'decode', q(tier, 10000, 500000), flavour='plain', wrapper='memcheck', timeout=q(tier, 900, 7200), single_timeout=600),
+        Job('corrupt-memcheck', 'c09', 'corrupt', q(tier, 4000, 200000), flavour='plain', wrapper='memcheck', timeout=q(tier, 900, 7200), single_timeout=600),
         Job('decode-float', 'c09', 'decode', q(tier, 60000, 2000000), defines=fl),
         Job('prefix-small', 'c09', 'prefix', q(tier, 5000, 200000), defines={'ARDUINOJSON_STRING_LENGTH_SIZE': 1, 'ARDUINOJSON_SLOT_ID_SIZE': 1, 'ARDUINOJSON_DEBUG': 1}),
         Job('corrupt-wide', 'c09', 'corrupt', q(tier, 8000, 300000), defines={'ARDUINOJSON_STRING_LENGTH_SIZE': 4}),
@@ -248,7 +254,7 @@ PROPS['C09'] = dict(
          'distinct = distinct encoded object',
     jobs=c09_jobs,
     min_evaluations=dict(quick=150000, thorough=5000000),
-    technique='reference-oracle monitoring: independent MessagePack encoder/decoder written from the specification drive deserializeMsgPack under ASan+UBSan; results extracted through the public API',
+    technique='reference-oracle monitoring: independent MessagePack encoder/decoder written from the specification drive deserializeMsgPack under ASan+UBSan (a slice also under valgrind memcheck); results extracted through the public API',
     level_text='Exploration: constructive for well-formed inputs (the encoded value is known), exhaustive over prefixes of each small object, sampled over corruptions.',
     level_note='For corrupted inputs NoMemory is accepted where a corrupted length/count exceeds the configured capacity; USE_DOUBLE=0 accepts either neighbouring float (don\'t-care 11).',
     assumptions=COMMON_ASSUME,
@@ -272,6 +278,8 @@ def c03_jobs(tier):
     jobs = [
         Job('json-default', 'c03', 'json', q(tier, 40000, 2000000), shim=True, timeout=q(tier, 900, 10000)),
         Job('msgpack-default', 'c03', 'msgpack', q(tier, 40000, 2000000), shim=True, timeout=q(tier, 900, 10000)),
+        Job('json-memcheck', 'c03', 'json', q(tier, 8000, 400000), shim=True, flavour='plain', wrapper='memcheck', timeout=q(tier, 900, 10000), single_timeout=600),
+        Job('msgpack-memcheck', 'c03', 'msgpack', q(tier, 8000, 400000), shim=True, flavour='plain', wrapper='memcheck', timeout=q(tier, 900, 10000), single_timeout=600),
     ]
     cfgs = C03_CFGS[:2] if tier == 'quick' else C03_CFGS
     for i, cfg in enumerate(cfgs):
@@ -289,7 +297,7 @@ PROPS['C03'] = dict(
          'on the effective bytes, counting readers never called after they reported the end; distinct = distinct (bytes, limit, filter)',
     jobs=c03_jobs,
     min_evaluations=dict(quick=100000, thorough=4000000),
-    technique='sanitizer-monitored hostile-input execution (g++ ASan+UBSan, exact-size input blocks, flash-pointer shim that faults on direct dereference) with a differential source-independence oracle across 13 input kinds and counting readers',
+    technique='sanitizer-monitored hostile-input execution (g++ ASan+UBSan, exact-size input blocks, flash-pointer shim that faults on direct dereference; valgrind memcheck on the uninstrumented build for uninitialised reads) with a differential source-independence oracle across 13 input kinds and counting readers',
     level_text='Exploration: memory safety and source independence on generated hostile inputs; termination is observed (watchdog), not proved.',
     level_note='Red zones miss far over-reads; mitigated by one exact block per input kind and by counting readers/streams, which are exact. A finite heap (64 MB per request) is emulated so that corrupted length fields cannot exhaust the sandbox.',
     assumptions=COMMON_ASSUME,
